@@ -159,6 +159,9 @@ func singleTargetPool() []targetJ {
 		{Var: "REQUEST_METHOD"}, {Var: "QUERY_STRING"}, {Var: "ARGS", Count: true}, {Var: "ARGS", Key: "a", Count: true},
 		{Var: "ARGS_GET", Count: true}, {Var: "ARGS_NAMES", Count: true}, {Var: "REQUEST_HEADERS", Count: true},
 		{Var: "TX", Key: "score"}, {Var: "TX", Key: "cnt"}, {Var: "TX", Key: "hits"}, {Var: "TX", Key: "crit"},
+		// derived views: size and counts
+		{Var: "ARGS_COMBINED_SIZE"}, {Var: "ARGS_COMBINED_SIZE"}, {Var: "ARGS_COMBINED_SIZE"}, {Var: "ARGS_POST", Count: true}, {Var: "ARGS_GET_NAMES", Count: true},
+		{Var: "ARGS_POST_NAMES", Count: true}, {Var: "REQUEST_HEADERS_NAMES", Count: true}, {Var: "ARGS_NAMES", Key: "token", Count: true},
 	}
 }
 
@@ -222,7 +225,7 @@ func genActs(r *rand.Rand, l *linkJ) {
 	}
 }
 
-func isNumericTarget(t targetJ) bool { return t.Count || (t.Var == "TX") }
+func isNumericTarget(t targetJ) bool { return t.Count || (t.Var == "TX") || t.Var == "ARGS_COMBINED_SIZE" }
 
 // genLink: a link over 1-2 targets; sens adds the order-dependent reads
 func genLink(r *rand.Rand, phase int, base []string, wantMulti bool) linkJ {
@@ -247,6 +250,10 @@ func genLink(r *rand.Rand, phase int, base []string, wantMulti bool) linkJ {
 		l.Targets = []targetJ{t}
 		if isNumericTarget(t) {
 			genOp(r, &l, true)
+			if t.Var != "TX" && r.Intn(2) == 0 {
+				// the value itself goes into the compared outcome
+				l.Acts = append(l.Acts, actJ{[]string{"snap", "snap2", "size"}[r.Intn(3)], "%{MATCHED_VAR}"})
+			}
 		} else {
 			l.T = genTfs(r, base)
 			genOp(r, &l, false)
@@ -309,6 +316,8 @@ func genCase(r *rand.Rand, sens bool) caseJSON {
 			Head:  linkJ{Targets: []targetJ{{Var: "REQUEST_METHOD"}}, Op: "rxdot", T: []string{"lowercase"}},
 			Chain: []linkJ{{Targets: []targetJ{{Var: "MATCHED_VAR"}}, Op: "beginswith", Arg: "p", Acts: []actJ{{"m", "%{MATCHED_VAR}"}, {"cnt", "+1"}}}}})
 	}
+	tuneThresholds(r, &cj)
+	genAlt(r, &cj)
 	if !orderInsensitive(cj.Rules) {
 		// by construction this should not happen; keep the stream order-insensitive
 		return genCase(r, false)
@@ -404,4 +413,112 @@ func spell(r *rand.Rand, s string) string {
 		}
 	}
 	return b.String()
+}
+
+func pairsSize(ps [][2]string) int {
+	n := 0
+	for _, p := range ps {
+		n += len(p[0]) + len(p[1])
+	}
+	return n
+}
+
+// tuneThresholds puts the numeric argument of rules over ARGS_COMBINED_SIZE / plain counts close to the
+// actual value (of the request or of its sibling), so that the verdict depends on the exact value
+func tuneThresholds(r *rand.Rand, cj *caseJSON) {
+	actual := func(t targetJ, phase int) (int, bool) {
+		get, post := cj.Get, cj.Post
+		if phase < 2 {
+			post = nil
+		}
+		if t.Key != "" || t.Rx != "" || len(t.Excl) > 0 {
+			return 0, false
+		}
+		switch {
+		case t.Var == "ARGS_COMBINED_SIZE":
+			return pairsSize(get) + pairsSize(post), true
+		case t.Count && (t.Var == "ARGS" || t.Var == "ARGS_NAMES"):
+			return len(get) + len(post), true
+		case t.Count && (t.Var == "ARGS_GET" || t.Var == "ARGS_GET_NAMES"):
+			return len(get), true
+		case t.Count && (t.Var == "ARGS_POST" || t.Var == "ARGS_POST_NAMES"):
+			return len(post), true
+		}
+		return 0, false
+	}
+	tune := func(l *linkJ, phase int) {
+		if len(l.Targets) != 1 || (l.Op != "ge" && l.Op != "eq") || r.Intn(4) == 0 {
+			return
+		}
+		if v, ok := actual(l.Targets[0], phase); ok {
+			v += r.Intn(5) - 2
+			if v < 0 {
+				v = 0
+			}
+			l.Arg = fmt.Sprint(v)
+		}
+	}
+	for i := range cj.Rules {
+		tune(&cj.Rules[i].Head, cj.Rules[i].Phase)
+		for k := range cj.Rules[i].Chain {
+			tune(&cj.Rules[i].Chain[k], cj.Rules[i].Phase)
+		}
+	}
+}
+
+// genAlt: the sibling request that alternates with the main one on the long-lived WAF
+func genAlt(r *rand.Rand, cj *caseJSON) {
+	if r.Intn(5) == 0 {
+		return
+	}
+	cj.Alt = true
+	other := func(v string) string {
+		switch r.Intn(4) {
+		case 0:
+			return v + "xxxxxxxx"[:1+r.Intn(8)]
+		case 1:
+			if len(v) > 1 {
+				return v[:len(v)/2]
+			}
+			return v + "attack"
+		default:
+			w := genValue(r)
+			if len(w) == len(v) {
+				w += "1"
+			}
+			return w
+		}
+	}
+	mode := r.Intn(4)
+	ren := map[string]string{}
+	rename := func(n string) string {
+		l := strings.ToLower(n)
+		if _, ok := ren[l]; !ok {
+			ren[l] = l + []string{"x", "yy", "zzz"}[r.Intn(3)]
+		}
+		return ren[l]
+	}
+	mut := func(ps [][2]string) [][2]string {
+		var out [][2]string
+		for _, p := range ps {
+			switch mode {
+			case 0, 1: // the same names (so the same number of names), values of other lengths
+				out = append(out, [2]string{p[0], other(p[1])})
+			case 2: // the same NUMBER of distinct names, names and values of other lengths
+				out = append(out, [2]string{rename(p[0]), other(p[1])})
+			default: // the converse: another number of names, the values kept
+				out = append(out, p)
+			}
+		}
+		if mode == 3 && len(out) > 0 {
+			if len(out) > 1 && r.Intn(2) == 0 {
+				out = out[:len(out)-1]
+			} else {
+				out = append(out, [2]string{"extra" + fmt.Sprint(r.Intn(3)), "one"})
+			}
+		}
+		return out
+	}
+	cj.AltGet = mut(cj.Get)
+	cj.AltPost = mut(cj.Post)
 }
